@@ -321,8 +321,9 @@ var styleTable = map[string]string{
 }
 
 // c14style: `//` and `/* */` annotations are recognised alike.
-func c14style(c *core.Ctx) {
-	const R = "C14.style"
+func c14style(c *core.Ctx) { c14styleAs(c, "C14.style") }
+
+func c14styleAs(c *core.Ctx, R string) {
 	c.Rule(R, "every test `x == lexeme.InlineAnnotationBegin` in the scanners and the loader stands in a disjunction with the same test for MultiLineAnnotationBegin on the same operand (and vice versa) - unless it is a row of a begin/end pair table (conjunction with the matching ...End) or a tabled mode-specific test: a place that recognises only one opener gives `// {rules}` and `/* {rules} */` different verdicts")
 	c.Floor(R, 8)
 	other := map[string]string{"InlineAnnotationBegin": "MultiLineAnnotationBegin", "MultiLineAnnotationBegin": "InlineAnnotationBegin"}
